@@ -481,3 +481,114 @@ func ruleSchemaCheckArgumentRoles(c *Ctx) {
 	}
 	c.Floor(rule, s.Name, "schema-check call sites", n, 1)
 }
+
+// R14.5 — each numeric conversion helper reads the reflected value with the accessor of the
+// value's own kind group: toFloat / toInt / toUint do not call one another. A detour through
+// another helper passes the value through a second integer or float type (toFloat via toInt wraps
+// uint64 ≥ 2^63 to a negative number; toInt via toFloat loses integers above 2^53).
+func ruleConversionHelpersIndependent(c *Ctx) {
+	const rule = "R14.5"
+	helpers := []string{"utils/io.toFloat", "utils/io.toInt", "utils/io.toUint"}
+	set := map[string]bool{}
+	for _, h := range helpers {
+		set[h] = true
+	}
+	for _, h := range helpers {
+		s := c.S(rule, h)
+		if s == nil {
+			continue
+		}
+		var bad *ast.CallExpr
+		accessors := map[string]bool{}
+		s.walk(func(m ast.Node) bool {
+			cx, ok := m.(*ast.CallExpr)
+			if !ok {
+				return true
+			}
+			nm := CalleeName(s.Info, cx)
+			if set[nm] && nm != h && bad == nil {
+				bad = cx
+			}
+			if strings.HasPrefix(nm, "(reflect.Value).") {
+				accessors[strings.TrimPrefix(nm, "(reflect.Value).")] = true
+			}
+			return true
+		})
+		if bad != nil {
+			c.Violate(rule, s.Name, "converts-from-own-kind-accessor", c.P.Pos(bad.Pos()),
+				shortCallee(h)+" routes the value through "+shortCallee(CalleeName(s.Info, bad))+": the value passes through a second numeric type on the way, which is lossy for part of the source type's range (uint64 ≥ 2^63 through int64, integers > 2^53 through float64)", nil)
+			continue
+		}
+		okAcc := accessors["Int"] && accessors["Uint"] && accessors["Float"]
+		c.Check(okAcc, rule, s.Name, "converts-from-own-kind-accessor", c.P.Pos(s.Body.Pos()),
+			shortCallee(h)+" reads signed, unsigned and floating values with Value.Int / Value.Uint / Value.Float respectively (accessors used: "+strings.Join(sortedStrs(accessors), ", ")+")")
+	}
+}
+
+// R11.4 — query bounds are compared as instants, not as nanosecond counts: Time.UnixNano is not
+// applied to a bound of the query's date range in the executor / planner. The default bounds
+// (year 1 … far future) lie outside the years 1678–2262 that fit an int64 nanosecond count; the
+// overflowed value turns "everything" into "nothing" or lets rows outside the range through.
+func ruleBoundsNotAsUnixNano(c *Ctx) {
+	const rule = "R11.4"
+	n, bad := 0, 0
+	for _, fn := range c.P.NonTestFuncs() {
+		ps := fn.PkgShort()
+		if fn.Decl.Body == nil || !(ps == "executor" || ps == "planner" || ps == "frontend") {
+			continue
+		}
+		info := fn.Pkg.TypesInfo
+		walkAll(fn.Decl.Body, func(m ast.Node) bool {
+			cx, ok := m.(*ast.CallExpr)
+			if !ok {
+				return true
+			}
+			nm := CalleeName(info, cx)
+			if nm != "(time.Time).UnixNano" && nm != "(time.Time).UnixMicro" {
+				return true
+			}
+			n++
+			sel, _ := unparen(cx.Fun).(*ast.SelectorExpr)
+			if sel == nil {
+				return true
+			}
+			recv := unparen(sel.X)
+			isBound := func(e ast.Expr) bool {
+				hit := false
+				walkAll(e, func(k ast.Node) bool {
+					if ex, ok := k.(ast.Expr); ok {
+						fk := fieldKey(info, ex)
+						if fk == "planner.DateRange.Start" || fk == "planner.DateRange.End" || fk == "planner.ParseResult.Range" {
+							hit = true
+						}
+					}
+					return !hit
+				})
+				return hit
+			}
+			b := isBound(recv)
+			if o := identObj(info, recv); o != nil && !b {
+				walkAll(fn.Decl.Body, func(k ast.Node) bool {
+					if as, ok := k.(*ast.AssignStmt); ok && len(as.Lhs) == len(as.Rhs) {
+						for i, l := range as.Lhs {
+							if identObj(info, l) == o && isBound(as.Rhs[i]) {
+								b = true
+							}
+						}
+					}
+					return true
+				})
+			}
+			if b {
+				bad++
+				c.Violate(rule, fn.Key, "query-bound-as-unix-nanoseconds", c.P.Pos(cx.Pos()),
+					"a bound of the query's date range is converted with "+shortCallee(nm)+"(): the default / open-ended bounds are outside the 1678–2262 range of an int64 nanosecond count, the result overflows and the range comparison selects the wrong rows", nil)
+			}
+			return true
+		})
+	}
+	if bad == 0 {
+		c.Hold(rule, "executor, planner, frontend", "no-query-bound-as-unix-nanoseconds", "", fmt.Sprintf("%d UnixNano call(s) in these packages, none on a bound of the query's date range (positive control)", n))
+	}
+	c.Floor(rule, "executor, planner, frontend", "UnixNano call sites (positive control: WAL file naming, transaction ids)", n, 1)
+}
